@@ -32,6 +32,7 @@ func TestMain(m *testing.M) { ev.Main(m, "C03") }
 type Case struct {
 	Lines  []string `json:"lines"`
 	CRLF   bool     `json:"crlf,omitempty"`
+	NoEOL  bool     `json:"no_eol,omitempty"` // the last line of the rule file has no line terminator
 	NoFile bool     `json:"no_file,omitempty"` // no .terraformignore at all: defaults only
 	Tree   fsx.Tree `json:"tree"`
 	Leg    string   `json:"leg"` // pack | off | deref | bundle
@@ -40,10 +41,18 @@ type Case struct {
 var subIgnore = ev.Register("ignore", checkIgnore).
 	Classifier("c03-builder-removes-dirs-wholesale", func(c Case) bool { return c.Leg == "bundle" })
 
+func (c Case) ruleText() string {
+	text := rgen.Render(c.Lines, c.CRLF)
+	if c.NoEOL {
+		text = strings.TrimSuffix(strings.TrimSuffix(text, "\n"), "\r")
+	}
+	return text
+}
+
 func fullTree(c Case) fsx.Tree {
 	tr := append(fsx.Tree{}, c.Tree...)
 	if !c.NoFile {
-		tr = append(tr, fsx.Node{Path: ".terraformignore", Kind: "file", Content: rgen.Render(c.Lines, c.CRLF), Mode: 0644, Sec: 1500000000})
+		tr = append(tr, fsx.Node{Path: ".terraformignore", Kind: "file", Content: c.ruleText(), Mode: 0644, Sec: 1500000000})
 	}
 	return tr
 }
@@ -169,7 +178,7 @@ func shippedByBundle(c Case, r string) (map[string]byte, error) {
 func checkIgnore(c Case) error {
 	r, cleanup := fsx.Scratch("c03-")
 	defer cleanup()
-	text := rgen.Render(c.Lines, c.CRLF)
+	text := c.ruleText()
 	if c.NoFile {
 		text = ""
 	}
@@ -289,6 +298,7 @@ func genCase(leg string) func(t *rapid.T) Case {
 			c.Leg = rapid.SampledFrom([]string{"pack", "pack", "deref", "bundle", "off"}).Draw(t, "leg")
 		}
 		c.CRLF = rapid.IntRange(0, 9).Draw(t, "crlf") == 0
+		c.NoEOL = rapid.IntRange(0, 4).Draw(t, "noeol") == 0
 		c.NoFile = rapid.IntRange(0, 11).Draw(t, "nofile") == 0
 		c.Tree = tgen.Gen(t, tgen.Config{MaxNodes: 16, IgnoreNames: true, ExtraNames: rgen.Names, Links: true, LinkPct: 10, LinkIntents: []string{"file", "dotslash", "updown"}})
 		// always some members of the built-in classes
